@@ -3,5 +3,5 @@
 set -euo pipefail
 cd ${VERIF_HOME:-/verif}
 mkdir -p build run evidence
-bin/build.sh ksim storex frontx routex pollx queuex procx
+bin/build.sh ksim storex frontx routex pollx queuex procx pushx
 echo "setup: harness binaries built"
